@@ -76,6 +76,35 @@ def build_harness(need26=True):
     return rc == 0, out
 
 
+CORR_RACE = os.path.join(HARNESS, "bin", "corr-race")
+
+
+def build_race():
+    """the correspondence harness built with the Go race detector (needs cgo); used by C14 only"""
+    env = dict(GOENV, CGO_ENABLED="1")
+    with Lock("go"):
+        rc, out = sh(["go", "build", "-race", "-tags", "verif", "-o", CORR_RACE, "./cmd/corr"], cwd=HARNESS, env=env, timeout=1800)
+    return rc == 0, out
+
+
+def run_race(oracle, seed, n, tier):
+    """one oracle under the race detector: the data races it reports whose stacks reach repository code.
+    ORACLE-FAIL lines are ignored here (the detector slows everything down: timing verdicts belong to the normal run)."""
+    env = dict(GOENV, GORACE="halt_on_error=0")
+    rc, out = sh([CORR_RACE, oracle, "-mode", "oracle", "-seed", str(seed), "-n", str(n), "-tier", tier], cwd=HARNESS, env=env, timeout=3600)
+    races = []
+    for blk in out.split("WARNING: DATA RACE")[1:]:
+        blk = blk.split("==================")[0]
+        frames = re.findall(r"^  (\S+\(.*?\)|\S+)\n\s+(\S+:\d+)", blk, re.M)
+        repo_frames = [f for f in frames if "go.brendoncarroll.net/p2p/" in f[0] and "/verif/" not in f[1]]
+        if not repo_frames:
+            continue
+        top = [f[0] + " " + os.path.basename(f[1]) for f in repo_frames[:2]]
+        races.append(("C14 data race (Go race detector, %s oracle): %s" % (oracle, " <-> ".join(top)), blk.strip()[:3000]))
+    m = re.search(r"oracle cases=(\d+)", out)
+    return races, (int(m.group(1)) if m else 0), out
+
+
 def regen_facts():
     """Regenerate Gen/Facts.lean from /repo (content-compared so an unchanged tree reuses the .oleans)."""
     exe = os.path.join(HARNESS, "bin", "extract")
@@ -489,6 +518,24 @@ def main(argv):
                     continue
                 failures.append({"kind": "oracle", "stream": os_, "signature": l[:600], "detail": l})
     notes["oracles"] = oracle_stats
+    # 5c. data races (C14): the oracles that exercise concurrency, once more under the Go race detector. A dynamic
+    #     detector proves nothing; it is the only thing here that looks at the Go memory model at all.
+    if ok and cfg.get("race_oracles"):
+        rok, rout = build_race()
+        if not rok:
+            notes["race_detector"] = "not available: " + rout[-300:]
+        else:
+            rstats = []
+            seen_r = set()
+            for os_, rn in cfg["race_oracles"].get(tier, cfg["race_oracles"]["quick"]):
+                races, ncases, _ = run_race(os_, seed, rn, tier)
+                rstats.append({"oracle": os_, "cases": ncases, "races": len(races)})
+                for sig, blk in races:
+                    if sig in seen_r:
+                        continue
+                    seen_r.add(sig)
+                    failures.append({"kind": "oracle", "stream": os_, "signature": sig, "detail": "ORACLE-FAIL " + sig + "\n" + blk})
+            notes["race_detector"] = rstats
     # 6. violation search
     violations = []
     known = load_known()
